@@ -335,15 +335,14 @@ Fixpoint walk (t : trie bucket) (prefix : bits) (excl : option bits) (k : nat)
        | S j => walk t prefix excl k j acc'
        end.
 
-(* sorted(nodes, key=distance): stable insertion sort *)
-Fixpoint insert_by (target : bits) (x : node) (l : list node) : list node :=
+(* sorted(nodes, key=distance): the key is computed once per node, then a stable insertion sort *)
+Fixpoint insert_key (x : Z * node) (l : list (Z * node)) : list (Z * node) :=
   match l with
   | [] => [x]
-  | h :: tl => if dist (nid x) target <=? dist (nid h) target then x :: h :: tl
-               else h :: insert_by target x tl
+  | h :: tl => if fst x <=? fst h then x :: h :: tl else h :: insert_key x tl
   end.
 Definition sort_by_dist (target : bits) (l : list node) : list node :=
-  fold_right (insert_by target) [] l.
+  map snd (fold_right insert_key [] (map (fun n => (dist (nid n) target, n)) l)).
 
 Definition closest (rt : rtable) (target : bits) (k : nat) (excl : option bits) : res (list node) :=
   let prefix := match lpi (tr rt) target with Some (p, _) => p | None => [] end in
